@@ -1,0 +1,10 @@
+//go:build !verif
+// +build !verif
+
+// Package vhook provides named pause points which are only active when the
+// binary is built with the `verif` build tag. Without the tag every call is
+// an empty function.
+package vhook
+
+// At marks a named point in the code.
+func At(name string) {}
